@@ -5,14 +5,12 @@
 (* C09Universe (action Feed).  TLC visits every token sequence of at most   *)
 (* MaxLen tokens and checks in each state, for the text written with blanks *)
 (* and for the text with the tokens glued together:                         *)
-(*   RoundTripRepaired  if the specification accepts the text with tree q,   *)
-(*               then Parse(Print(q)) = q and printing is stable, for the   *)
-(*               printer with both deviations of query.go repaired          *)
-(*   RoundTripCode  the same for the printer as query.go has it, wherever   *)
-(*               its output equals the repaired printer's                   *)
-(*   RoundTripStrict (negative control, not in the default config): the     *)
-(*               printer of query.go on every text - TLC finds `. . [ . ]`  *)
-(*               and `import "" as a ;`                                     *)
+(*   RoundTrip   if the specification accepts the text with tree q, then     *)
+(*               Parse(PrintQ(q)) = q and PrintQ(Parse(PrintQ(q))) =        *)
+(*               PrintQ(q): printing a parsed query never changes it        *)
+(*   NegDotBracket / NegEmptyImport (negative controls, not in the default  *)
+(*               config): the law for the printer with one deviation on -   *)
+(*               TLC finds `. . [ .a ]` and `import "" as a ;`              *)
 (*   (the next two not for the alphabets of token PIECES - "strings",       *)
 (*   "comments", "lexemes" - whose point is what gluing the pieces gives)   *)
 (*   Separate    the blank-separated text lexes to exactly the tokens fed   *)
@@ -38,10 +36,8 @@ RoundTripOf(d, r) ==
       r2 == Parse(pr)
   IN r2.ok /\ r2.n = r.n /\ PrintDev(d, r2.n) = pr
 
-\* the repaired printer satisfies the property on the whole universe
-RepairedOK(r) == r.ok => RoundTripOf({}, r)
-\* the printer of query.go satisfies it wherever none of its two deviations shows
-CodeOK(r) == r.ok => (PrintQ(r.n) = PrintRepaired(r.n) => RoundTripOf(CodeDeviations, r))
+\* the printer of query.go satisfies the property on the whole universe
+RoundTripOK(r) == r.ok => RoundTripOf(CodeDeviations, r)
 
 \* "# c\r\n" between the tokens, leading blanks, trailing comment without a line end
 Respaced == <<32, 9>> \o JoinToks(toks, 1, <<32, 35, 32, 99, 13, 10>>) \o <<10, 35, 120>>
@@ -52,17 +48,17 @@ Checks ==
       a == ParseTokens(T)
       g == Parse(Glued(toks))
       b == Parse(Respaced)
-  IN [RoundTripRepaired |-> RepairedOK(a) /\ RepairedOK(g),
-      RoundTripCode |-> CodeOK(a) /\ CodeOK(g),
+  IN [RoundTrip |-> RoundTripOK(a) /\ RoundTripOK(g),
       Separate |-> Profile \in PieceProfiles \/ (Len(T) = Len(toks) + 1 /\ \A i \in 1..Len(toks) : T[i].s = toks[i]),
       TokensOnly |-> Profile \in PieceProfiles \/ (a.ok = b.ok /\ (a.ok => a.n = b.n))]
 
-AllInvariants == LET c == Checks IN c.RoundTripRepaired /\ c.RoundTripCode /\ c.Separate /\ c.TokensOnly
-RoundTripRepaired == Checks.RoundTripRepaired
-RoundTripCode == Checks.RoundTripCode
+AllInvariants == LET c == Checks IN c.RoundTrip /\ c.Separate /\ c.TokensOnly
+RoundTrip == Checks.RoundTrip
 Separate == Checks.Separate
 TokensOnly == Checks.TokensOnly
 
-\* negative control (GrammarMC_neg.cfg): the printer of query.go on every text; TLC must find the defects
-RoundTripStrict == LET a == Parse(Spaced(toks)) IN a.ok => RoundTripOf(CodeDeviations, a)
+\* negative controls (GrammarMC_neg.cfg, GrammarMC_neg2.cfg): with a deviation switched on TLC must find
+\* the counterexample (`. . [ .a ]` in alphabet "terms", `import "" as a ;` in alphabet "modules")
+NegDotBracket == LET a == Parse(Spaced(toks)) IN a.ok => RoundTripOf({"dotBracket"}, a)
+NegEmptyImport == LET a == Parse(Spaced(toks)) IN a.ok => RoundTripOf({"emptyImport"}, a)
 =============================================================================
